@@ -17,6 +17,9 @@ EXPLANATION = (
     "reach the decision with the transcript cut, so no proof component can be replaced freely. R4: wherever the "
     "verifier zips an adversary-sized proof list with the claims, or encodes a vector taken from the proof, a length "
     "comparison must dominate that use - zip and Reed-Solomon encoding silently accept short / stretched inputs. "
+    "R4r: in the IPA verifier every call of the succinct check is dominated by a refusal on an equality comparison of the "
+    "number of rounds (len of proof.l_vec) with a value that does not come from the proof - with an extra round the "
+    "recomputation of the final key silently truncates the check polynomial and any value can be proved (F8). "
     "RFS: in the IPA verifier every group element of the proof that is multiplied by a hash-derived challenge is "
     "itself an input of a challenge derivation (otherwise the prover can choose it after the challenge). "
     "R1m: listed pairs of transcript components (opened columns vs the encoding of the opening / well-formedness "
@@ -114,6 +117,8 @@ def run(rep, ctx, tier):
             if ok and name in EVERY_PATH:
                 ok2, detail2, where2 = R1M.check_every_path(ctx, a, A, B)
                 rep.add("R1m", "%s:meet-on-every-path:%s" % (a.key, name), ok2, "%s: %s" % (name, detail2), where2 or where)
+        if a.info.get("adt") == "ipa_pc::InnerProductArgPC":
+            R4.run_rounds(rep, ctx, a, "ipa_pc::data_structures::Proof", "l_vec", "::succinct_check", "R4r")
         if a.info.get("adt") == "ipa_pc::InnerProductArgPC" and a.method in ("check", "batch_check"):
             nd = RFS.run(rep, ctx, a, [(e[0], e[1], e[2] if len(e) > 2 else None) for e in a.info["proof"]
                                        if e[1] in ("l_vec", "r_vec", "hiding_comm")], "RFS")
